@@ -99,8 +99,9 @@ Step(st, o) ==
          ELSE IF o.mode = "append" THEN
            [(IF Exists(st, o.name) THEN st ELSE SetFile(st, o.name, <<>>)) EXCEPT !.h[o.n] = [m |-> "output", name |-> o.name]]
          ELSE \* random
-           (IF Exists(st, o.name) THEN Unfixed(st)           \* re-opening an existing file at random: not modelled
-            ELSE [SetFile(st, o.name, <<>>) EXCEPT !.h[o.n] = [m |-> "random", name |-> o.name, len |-> o.len, fld |-> <<>>, more |-> <<>>]])
+           \* an existing file keeps its records: what was PUT before the file was closed is what GET returns later
+           [(IF Exists(st, o.name) THEN st ELSE SetFile(st, o.name, <<>>))
+              EXCEPT !.h[o.n] = [m |-> "random", name |-> o.name, len |-> o.len, fld |-> <<>>, more |-> <<>>]]
     [] o.op = "print" ->
          IF st.h[o.n].m # "output" THEN Fail(st, FileErr)
          ELSE SetFile(st, st.h[o.n].name, st.store[st.h[o.n].name] \o o.text \o CRLF)
